@@ -309,13 +309,20 @@ def d4(chk, prog):
                               header_records=[hrec("PEDIGREE", Derived="T", Original="N")] if paired == "by PEDIGREE" else ())
         if out is None:
             continue
+        # which of the five records (starts 100..104) are still in the table: rows really removed (a literal table) or marked as dropped (`__keep__`)
         keep = out.cols.get("__keep__")
-        kept = [k is True for k in keep.v] if keep is not None else [True] * 5
+        present = {}
+        for j, st in enumerate(out.cols["start"].v if "start" in out.cols else []):
+            tv = T(st)
+            if tv.is_const():
+                present[int(tv.cval())] = j
+        kept = [(100 + i) in present and (keep is None or keep.v[present[100 + i]] is True) for i in range(5)]
         if [sorted(x) for x in vf.subsets] != [["N", "T"] if paired else ["T"]]:
             kept = f"the reader was restricted to {vf.subsets}"
         dd = ndepths if paired else depths
         want = [(min_depth is None or (dd[i] is not None and dd[i] >= min_depth)) and not (skip_som and som[i]) for i in range(5)]
-        okf = all(same(out.cols["alt_freq"].v[i], Fr(5, depths[i])) for i in range(4)) and (not paired or all(same(out.cols["n_alt_freq"].v[i], Fr(7, ndepths[i])) for i in range(4)))
+        okf = all(same(out.cols["alt_freq"].v[present[100 + i]], Fr(5, depths[i])) for i in range(4) if (100 + i) in present) \
+            and (not paired or all(same(out.cols["n_alt_freq"].v[present[100 + i]], Fr(7, ndepths[i])) for i in range(4) if (100 + i) in present))
         tb.cell(kept == want and okf, dict(paired=paired, min_depth=min_depth, skip_somatic=skip_som, kept=kept, want=want, depth_column="n_depth" if paired else "depth",
                                            note="a record without depth information counts as depth 0 and is dropped by a depth cut-off"))
     tb.done("read_vcf does not keep exactly the records with enough depth (in the normal, when paired) and without the SOMATIC flag when asked")
